@@ -16,23 +16,31 @@ Reading of the statement.
   code by the check).  The invariant is therefore stated for nodes that are not views, and preserved
   along histories that respect single ownership (`Op.ok`): children handed to a node are detached roots
   or the node's own children.  Fandango's own code stays inside this discipline.
-* Proved for all histories: `Inv` is preserved by the constructor, `add_child`, `set_children`, the three
-  setters, `hash`, `==`, indexing / slicing, every read-only accessor, `append(hookin_path)`, subtree
-  copies (`deepcopy(copy_parent=False)`, `copy.deepcopy(root)`) and `replace` / `replace_multiple`
-  (`C10_inv_step_partial`, `C10_inv_reachable_partial`, `C10_deepcopy_inv`, `C10_replace_inv`).
-  The *aliasing* half is proved for all inputs without any invariant: `C10_deepcopy_frame` (every
-  pre-existing record is identical afterwards, the copy is new — all flag combinations) and
-  `C10_replace_frame` (every pre-existing node keeps symbol, parties, child list, parent link and flags,
-  the result is new).
-  NOT proved (`C10_FullStatement`): `Inv` preservation by `split_end`, `prefix` and by the upward whole-tree
-  copy `copy.deepcopy(inner_node)` (copy_parent=True on a node that has a parent) they start with.  For
-  these it is checked on every run by evaluating the *verified* checker `invB` (`C10_invB_sound`) on the
-  model state after every operation of every disciplined history, the model being tied to the code by
-  correspondence.
+* Proved for all histories: `Inv` is preserved by EVERY operation of the language — the constructor,
+  `add_child`, `set_children`, the three setters, `hash`, `==`, indexing / slicing, every read-only accessor,
+  `append(hookin_path)`, `deepcopy` with all flag combinations (subtree copies AND the upward whole-tree copy
+  `copy.deepcopy(inner_node)`: copy_parent=True on a node that has a parent), `replace` / `replace_multiple`,
+  `split_end(copy_tree)` and `prefix(copy_tree)` with both flags: `C10_inv_step : C10_FullStatement Hc` under the
+  discipline `Op.okFull`, `C10_inv_reachable` for every history.
+  The operations that walk up the parent chain (`split_end`, `prefix`, `deepcopy(copy_parent=True)`) need that
+  no node on that chain is a view (`NoViewUp`): a parent link into a `SliceTree` can only come from editing a
+  `SliceTree` (outside the discipline), and then these operations re-parent children the view does not own
+  (`C10_parent_into_view_breaks`, by `decide`; replayed by hand on the real `DerivationTree`: after
+  `v = w[0:]; v.add_child(c); c.split_end(False)` the child `z` of `w` has `z.parent is v`).  Along disciplined histories no
+  parent link ever points to a view (`ParNV`, `C10_parNV_step`), so for histories the discipline is just
+  "the node is not a view" (`Op.okS`, exactly what harness/impl/arena_real.disciplined mirrors):
+  `C10_inv_reachable`.  The parent links followed may be stale (a node keeps `_parent` when its lister drops
+  it): nothing assumes that a parent lists the node.
+  The *aliasing* half is proved for all inputs without any invariant: `C10_deepcopy_frame`,
+  `C10_split_copy_frame`, `C10_prefix_copy_frame` (every pre-existing record is identical afterwards, the
+  result and everything above / below it is new) and `C10_replace_frame` (every pre-existing node keeps symbol,
+  parties, child list, parent link and flags, the result is new).  In place (`copy_tree=False`):
+  `C10_split_inplace_frame` / `C10_prefix_inplace_frame` (nothing but cached sizes / hashes changes except that
+  child lists of the strict ancestors of the node are cut to a prefix).
 * `H` is abstract: `Hc` combines a node's fields with its children's hashes; `C10_eq_iff` assumes `Hc`
   injective (no collision) — CPython's 64-bit hash is not, accidental collisions are outside the model.
 -/
-import Proofs.ArenaHist
+import Proofs.ArenaNVP
 namespace FV
 open Store
 variable {α : Type} [DecidableEq α] {Hc : Sym → Option String → Option String → List α → α}
@@ -41,27 +49,40 @@ variable {α : Type} [DecidableEq α] {Hc : Sym → Option String → Option Str
 
 theorem C10_inv_empty : Inv Hc ([] : Store α) := inv_nil
 
-/-- discipline including the operations without an `Inv`-preservation theorem (`split_end`, `prefix`,
-`deepcopy` with `copy_parent=True` of a node that has a parent): they are applied to nodes that are not views -/
-def Op.okFull (σ : Store α) : Op → Prop
-  | .deepcopy i _ _ | .splitEnd i _ | .prefix i _ => ∃ r, σ[i]? = some r ∧ r.view = false
-  | op => Op.ok σ op
-
-/-- FULL statement (not proved for split_end / prefix / upward deepcopy; see the header) -/
+/-- FULL statement: every operation of the language under the full discipline `Op.okFull`
+(Proofs/ArenaFull.lean: `Op.ok`, and `deepcopy` with any flags / `split_end` / `prefix` with any flag on a node
+that is not a view and — when the parent chain is walked — does not hang below a view) -/
 def C10_FullStatement (Hc : Sym → Option String → Option String → List α → α) : Prop :=
   ∀ (fuel : Nat) (σ : Store α) (op : Op), Inv Hc σ → Op.okFull σ op → Inv Hc (step Hc fuel σ op).1
 
-/-- one public operation (constructor, add/set children, setters, hash, ==, indexing, slicing, every
-read-only accessor, append, subtree deepcopy, replace / replace_multiple) from an `Inv` state ends in an
-`Inv` state; an operation that raises changes nothing (`append`: keeps the nodes it had added, still
-`Inv`).  Partial: `Op.ok` is `False` for split_end / prefix and excludes `deepcopy(copy_parent=True)` of a
-node that has a parent. -/
-theorem C10_inv_step_partial (fuel : Nat) (σ : Store α) (op : Op) (hI : Inv Hc σ) (hok : Op.ok σ op) :
-    Inv Hc (step Hc fuel σ op).1 := step_inv fuel hI op hok
+/-- **one public operation** (constructor, add/set children, setters, hash, ==, indexing, slicing, every
+read-only accessor, append, `deepcopy` with all flag combinations — including the upward whole-tree copy
+`copy.deepcopy(inner_node)` —, replace / replace_multiple, `split_end`, `prefix` with and without
+`copy_tree`) from an `Inv` state ends in an `Inv` state; an operation that raises changes nothing (`append`:
+keeps the nodes it had added, still `Inv`). -/
+theorem C10_inv_step : C10_FullStatement Hc :=
+  fun fuel _ op hI hok => step_inv_full fuel hI op hok
 
 /-- … hence for every finite history of such operations, from the empty store -/
-theorem C10_inv_reachable_partial (fuel : Nat) (ops : List Op) (h : OkHist Hc fuel ([] : Store α) ops) :
-    Inv Hc (runOps Hc fuel [] ops) := runOps_inv fuel ops [] inv_nil h
+theorem C10_inv_reachable_full (fuel : Nat) (ops : List Op) (h : OkHistFull Hc fuel ([] : Store α) ops) :
+    Inv Hc (runOps Hc fuel [] ops) := runOps_inv_full fuel ops [] inv_nil h
+
+/-- Under the discipline no parent link is ever made to point to a view, and then "the node is not a view"
+(`Op.okS`) is all `split_end` / `prefix` / `deepcopy` need: the pair (`Inv`, `ParNV`) is kept by every operation. -/
+theorem C10_parNV_step (fuel : Nat) (σ : Store α) (op : Op) (hI : Inv Hc σ) (hP : ParNV σ) (hok : Op.okS σ op) :
+    Inv Hc (step Hc fuel σ op).1 ∧ ParNV (step Hc fuel σ op).1 :=
+  ⟨step_inv_full fuel hI op (hok.full hP), (step_pv fuel hI hP op hok).parNV hP⟩
+
+/-- **every history**: from the empty store, every finite history of public operations in which children
+handed to a node are detached roots or its own children and views are neither edited nor copied / split
+(`OkHistS`) ends in a state that satisfies the bookkeeping invariant (and has no parent link into a view) -/
+theorem C10_inv_reachable (fuel : Nat) (ops : List Op) (h : OkHistS Hc fuel ([] : Store α) ops) :
+    Inv Hc (runOps Hc fuel [] ops) ∧ ParNV (runOps Hc fuel [] ops) :=
+  runOps_inv_S fuel ops [] inv_nil parNV_nil h
+
+/-- the narrower discipline `Op.ok` (no `split_end` / `prefix`, subtree copies only) is a special case -/
+theorem C10_ok_is_okFull (σ : Store α) (op : Op) (hI : Inv Hc σ) (hok : Op.ok σ op) : Op.okFull σ op :=
+  Op.ok.full hI hok
 
 /-! ### what the invariant says about the observers -/
 
@@ -153,6 +174,44 @@ theorem C10_replace_frame (fuel : Nat) (σ σ' : Store α) (i c : Nat) (reps : L
   replaceMultiple_frame fuel h
 
 omit [DecidableEq α] in
+/-- `split_end(copy_tree=True)` (what `mutate()` works on): every record that existed before is *identical*
+afterwards; the returned node is new and everything above / below it is new -/
+theorem C10_split_copy_frame (fuel : Nat) (σ σ' : Store α) (i c : Nat)
+    (h : splitEnd fuel σ i true = .ok (σ', c)) :
+    σ.length ≤ σ'.length ∧ (∀ a, a < σ.length → σ'[a]? = σ[a]?) ∧ σ.length ≤ c ∧ FreshClosed σ.length σ' :=
+  splitEnd_copy_frame fuel h
+
+omit [DecidableEq α] in
+/-- `prefix(copy_tree=True)`: the same -/
+theorem C10_prefix_copy_frame (fuel : Nat) (σ σ' : Store α) (i c : Nat)
+    (h : prefixOp fuel σ i true = .ok (σ', c)) :
+    σ.length ≤ σ'.length ∧ (∀ a, a < σ.length → σ'[a]? = σ[a]?) ∧ σ.length ≤ c ∧ FreshClosed σ.length σ' :=
+  prefix_copy_frame fuel h
+
+omit [DecidableEq α] in
+/-- `split_end(copy_tree=False)` edits in place and returns the node itself: every record keeps symbol, parties,
+parent link and flags, and its child list — except that the child lists of the strict ancestors of the node are
+cut to a prefix (`CutAbove`); nothing is allocated -/
+theorem C10_split_inplace_frame (fuel : Nat) (σ σ' : Store α) (i c : Nat) (hI : Inv Hc σ) (hNV : NoViewUp σ i)
+    (h : splitEnd fuel σ i false = .ok (σ', c)) : c = i ∧ CutAbove σ σ' i :=
+  splitEnd_inplace_frame fuel hI hNV h
+
+omit [DecidableEq α] in
+/-- `prefix(copy_tree=False)` returns the node's parent; the same frame -/
+theorem C10_prefix_inplace_frame (fuel : Nat) (σ σ' : Store α) (i c : Nat) (hI : Inv Hc σ) (hNV : NoViewUp σ i)
+    (h : prefixOp fuel σ i false = .ok (σ', c)) :
+    (∃ ri, σ[i]? = some ri ∧ ri.parent = some c) ∧ CutAbove σ σ' i :=
+  prefix_inplace_frame fuel hI hNV h
+
+omit [DecidableEq α] in
+/-- every `deepcopy` / `copy.deepcopy` keeps the invariant and returns a new node (all flags; the upward
+whole-tree copy needs that the node does not hang below a view) -/
+theorem C10_deepcopy_inv_full (fuel : Nat) (σ σ' : Store α) (i c : Nat) (cc cp : Bool) (ri : NodeRec α)
+    (hI : Inv Hc σ) (hri : σ[i]? = some ri) (hv : ri.view = false) (hNV : cp = true → NoViewUp σ i)
+    (h : deepcopy fuel σ i cc cp = .ok (σ', c)) : Inv Hc σ' ∧ c = σ.length :=
+  deepcopy_inv_full fuel hI hri hv hNV h
+
+omit [DecidableEq α] in
 /-- subtree copies keep the invariant; the copy is a new detached root that nobody lists, and nothing that
 existed before is touched -/
 theorem C10_deepcopy_inv (fuel : Nat) (σ σ' : Store α) (i c : Nat) (cc cp : Bool) (ri : NodeRec α)
@@ -202,6 +261,20 @@ theorem C10_view_goes_stale :
     (sizeOp σ 2, (absF 20 σ 2).map Tree.size, sizeOp σ 1, (absF 20 σ 1).map Tree.size)
       = (.ok 2, some 3, .ok 3, some 3) := by decide
 
+/-- history: z = leaf; w = node[z]; v = w[0:]; c = leaf; v.add_child(c)  — a `SliceTree` is edited (outside the
+discipline: `Op.ok` fails at the last op), so `c._parent` is the view -/
+def viewParentHistory : List Op := [leafA, innerOver 0, .getSlice 1 (some 0) none, leafA, .addChild 2 3]
+
+/-- Why `split_end` / `prefix` / `deepcopy(copy_parent=True)` need `NoViewUp`: the state after this history still
+satisfies `Inv` (it does not speak about views), but `c.split_end(copy_tree=False)` runs
+`v.set_children([z, c])` on the view and re-parents `z` (owned by `w`) to it, and `copy.deepcopy(c)` copies the
+view as a plain node that takes over the copy of `z` from the copy of `w`: the checker rejects both states.
+(Finite witness, `decide +kernel`; the real `DerivationTree` behaves the same — replayed by hand, not by the check.) -/
+theorem C10_parent_into_view_breaks :
+    let σ := runOps HcN 20 [] viewParentHistory
+    (invB HcN 20 σ, invB HcN 20 (step HcN 20 σ (.splitEnd 3 false)).1,
+      invB HcN 20 (step HcN 20 σ (.deepcopy 3 true true)).1) = (true, false, false) := by decide +kernel
+
 /-! ### non-vacuity -/
 
 /-- a concrete disciplined history (constructor with children, add_child, setter, hash, slice, ==) -/
@@ -245,5 +318,31 @@ example : OkHist HcN 12 ([] : Store Nat) okHistory := by
     obtain ⟨rfl, rfl⟩ := hab
     exact ⟨_, rfl, rfl⟩
   · exact ⟨_, rfl, rfl, .inr rfl⟩
+
+/-- a concrete history that meets the hypothesis `OkHistS` of `C10_inv_reachable` with the three operations
+added by the full statement: the upward whole-tree copy of an inner node, `split_end` / `prefix` with and
+without `copy_tree` -/
+def fullHistory : List Op :=
+  [leafA, leafA, .mk (.nt "a") none none [0, 1] false, .deepcopy 0 true true, .splitEnd 1 true,
+   .prefix 1 false, .splitEnd 0 false]
+
+example : OkHistS HcN 12 ([] : Store Nat) fullHistory := by
+  refine ⟨?_, ?_, ?_, ?_, ?_, ?_, ?_, trivial⟩
+  · intro c hc; simp at hc
+  · intro c hc; simp at hc
+  · intro c hc
+    simp at hc
+    rcases hc with rfl | rfl
+    · exact ⟨_, rfl, rfl, rfl⟩
+    · exact ⟨_, rfl, rfl, rfl⟩
+  · exact ⟨_, rfl, rfl⟩
+  · exact ⟨_, rfl, rfl⟩
+  · exact ⟨_, rfl, rfl⟩
+  · exact ⟨_, rfl, rfl⟩
+
+/-- … and it really runs all of them (no operation raises): 3 + 3 (copy of the whole tree) + 3 (again, for
+`split_end(copy_tree=True)`) nodes; `prefix(copy_tree=False)` cuts the root's child list to `[0]` -/
+example : (runOps HcN 12 [] fullHistory).length = 9 ∧
+    ((runOps HcN 12 [] fullHistory)[2]?).map (·.kids) = some [0] := by decide +kernel
 
 end FV
